@@ -127,6 +127,12 @@ def run(tier, seed):
         "traces_validated_against_impl": tot["traces"], "crash_images_reopened": tot["images_real"],
         "exhaustive": True,
     }
+    # story: flush() is called while a background batch (woken by the periodic coordinator) is in the worker's hand and
+    # that batch's record writes fail: an Ok from flush() means a crash right after it recovers the key
+    import seqengine as _sqa
+    _av, _an, _ast = _sqa.run_stories(PROP, fxv, rd, "ackstory", 2 if tier == "quick" else 8,
+                                      "flush() acknowledged while the worker still had the batch in hand")
+    all_viol += _av
     return {"level": "fault_enumeration", "coverage": cov, "violations": all_viol,
             "assumptions": ["fault decision hook in write_sectors_sync / flush; synchronous batch path forced",
                             "single faults and fail-from-i; pairs of faults not yet enumerated"]}
